@@ -637,6 +637,18 @@ class Prover:
                 return self._len_of_ref_type(t)
             return None
         pl = op["place"]
+        if len(pl["p"]) == 1 and pl["p"][0]["k"] == "field" and pl["p"][0].get("index", pl["p"][0].get("i")) in (0, 1):
+            # the halves of `s.split_at(mid)` / `s.split_at_mut(mid)`: len(.0) = mid, len(.1) = len(s) - mid
+            d = self.q.single_def(pl["l"])
+            if d is not None and d.kind == "call" and re.search(r"slice::<impl \[.*\]>::split_at(_mut)?$", d.call.callee_path):
+                mid = self.lin_op(d.call.args[1])
+                if mid is None:
+                    return None
+                if pl["p"][0].get("index", pl["p"][0].get("i")) == 0:
+                    return mid
+                whole = self.exact_len(d.call.args[0], depth + 1)
+                return whole.sub(mid) if whole is not None else None
+            return None
         if not pl["p"]:
             t = self.body.local_ty(pl["l"])
             n = self._len_of_ref_type(t)
